@@ -522,6 +522,55 @@ impl<'a, C: Crypto> Ctl<'a, C> {
     }
 
     /// Write one concrete attribute with a value encodable by `ToTLV`.
+    /// Groups::AddGroup on endpoint 1 (generic invoke: the command data is written by hand).
+    pub async fn add_group(&self, via: Via, group_id: u16, name: &str) -> Out {
+        let r: Result<u8, Error> = async {
+            let chunk = self
+                .exch(via)
+                .await?
+                .invoke_with(None, |msg| {
+                    msg.invoke_requests()?
+                        .push()?
+                        .path(1, 0x0004, 0)?
+                        .data(|w| {
+                            use rs_matter::tlv::TLVWrite;
+                            w.start_struct(&TLVTag::Context(1))?; // CmdDataTag::Data
+                            w.u16(&TLVTag::Context(0), group_id)?;
+                            w.utf8(&TLVTag::Context(1), name)?;
+                            w.end_container()
+                        })?
+                        .end()?
+                        .end()?
+                        .end()
+                })
+                .await?;
+            // AddGroupResponse { status, group_id } or a bare status
+            let mut code: u8 = 0xFF;
+            if let Some(resp) = chunk.response()? {
+                if let Some(list) = resp.invoke_responses.as_ref() {
+                    for r in list.iter() {
+                        match r? {
+                            rs_matter::im::CmdResp::Status(s) => code = s.status.status as u8,
+                            rs_matter::im::CmdResp::Cmd(c) => {
+                                code = c.data.structure()?.find_ctx(0)?.u8()?;
+                            }
+                        }
+                    }
+                }
+            }
+            let mut chunk = chunk;
+            while let Some(next) = chunk.complete().await? {
+                chunk = next;
+            }
+            Ok(code)
+        }
+        .await;
+        match r {
+            Ok(c) => cl(c),
+            Err(e) => Out::Err(e.code()),
+        }
+    }
+
     pub async fn write_attr<T: ToTLV>(
         &self,
         via: Via,
